@@ -61,6 +61,7 @@ fn main() {
                 "c08" => props::safe::job_c08(outdir, tier, seed),
                 "c10" => props::mem::job_c10(outdir, tier, seed),
                 "c11" => props::bail::job_c11(outdir, tier, seed),
+                "c13" => props::enc::job_c13(outdir, tier, seed),
                 "c09" => props::lat::job_c09(outdir, tier, seed),
                 "c14" => props::tok::job_c14(outdir, tier, seed),
                 "c16" => props::tok::job_c16(outdir, tier, seed),
